@@ -118,7 +118,14 @@ def getSpec (tracks : List TrackInfo) (gs : List GSeg) (st dur : Int) (impl : St
         let got := match outs.find? (·.tid == ti.tid) with | some o => o.ids | none => []
         let gotVisible := got.filter (fun i => want.any (· == i))
         let gotOther := got.filter (fun i => !want.any (· == i))
-        if gotVisible != want then some s!"track {ti.tid}: samples in the window {want} but returned {got}"
+        -- decidable class: in recorded order a sample at/after the start is followed by one BEFORE the start (DTS not
+        -- monotonic in the file: a zero-duration sample + the 1-tick truncation of the next part's BaseTime)
+        let rec backwards : List Smp → Bool → Bool
+          | [], _ => false
+          | s :: r, seen => (seen && decide (s.dts < 0)) || backwards r (seen || decide (0 ≤ s.dts))
+        if gotVisible != want && backwards tl false then
+          some s!"NONMONO track {ti.tid}: samples in the window {want} but returned {got}: a later sample has a timestamp before the start and the muxer restarts its buffer"
+        else if gotVisible != want then some s!"track {ti.tid}: samples in the window {want} but returned {got}"
         else if !isSub gotOther pre then some s!"track {ti.tid}: returned {gotOther} outside the window and outside the pre-roll {pre}"
         else if got != gotOther ++ gotVisible then some s!"track {ti.tid}: not in recorded order: {got}"
         else none
@@ -175,11 +182,16 @@ def step (d : D) (op impl : String) : D × DrvOut :=
       let mFixed := if gs.isEmpty then "400" else match getFixed tr gs st du with
         | none => "404"
         | some os => "200 " ++ fmtGet os
-      let m := if impl != m && impl == mFixed then impl else m
+      let mFixed2 := if gs.isEmpty then "400" else match getFixedWith muxStepFix tr gs st du with
+        | none => "404"
+        | some os => "200 " ++ fmtGet os
+      let m := if impl != m && (impl == mFixed || impl == mFixed2) then impl else m
       let sp := if impl.startsWith "panic" then "VIOL-PANIC" else getSpec tr gs st du impl
       let sp := if sp == "VIOL-PANIC" then "FAIL GET /get panicked (handlerExitOnPanic exits the server): " ++ impl
         else if sp.startsWith "VIOL " then
-          (if m == impl then "KNOWN get-stops-at-first-cutoff " ++ (sp.drop 5).toString else "FAIL " ++ (sp.drop 5).toString)
+          (if m == impl && (sp.drop 5).toString.startsWith "NONMONO " then
+             "KNOWN get-dts-not-monotonic " ++ ((sp.drop 5).toString.drop 8).toString
+           else "FAIL " ++ (sp.drop 5).toString)
         else sp
       (d, { model := m, spec := sp })
     | _, _ => (d, { model := "bad-op" })
